@@ -174,7 +174,7 @@ def _key_cases(args):
         if nets.is_stub(N) :
             continue
         pt = pts[r["key"] - 1]
-        want = {k: (nets.ev(r[k][0]) if r[k] else None) for k in ("addr_c", "addr_u", "bip49", "bip84")}
+        want = {k: (nets.ev(r[k][0]) if r[k] else None) for k in ("addr_c", "addr_u", "bip49", "bip84", "bip49_u", "bip84_u")}
         secc = nets.sec_of(pt, True)
         blob = b"\0\0\0\0" + b"\0" + b"\0\0\0\0" + b"\0\0\0\0" + bytes(range(32)) + secc
         obs = {
@@ -187,6 +187,21 @@ def _key_cases(args):
             "BIP49Node.address()": (want["bip49"], lambda: N.keys.bip49_deserialize(blob).address()),
             "BIP84Node.address()": (want["bip84"], lambda: N.keys.bip84_deserialize(blob).address()),
         }
+        # asked for the uncompressed form: the address of the script paying to THAT hash, or a refusal (exception)
+        obs_u = {
+            "BIP32Node.address(uncompressed)": (want["addr_u"], lambda: N.keys.bip32_deserialize(blob).address(is_compressed=False)),
+            "BIP49Node.address(uncompressed)": (want["bip49_u"], lambda: N.keys.bip49_deserialize(blob).address(is_compressed=False)),
+            "BIP84Node.address(uncompressed)": (want["bip84_u"], lambda: N.keys.bip84_deserialize(blob).address(is_compressed=False)),
+            "BIP32Node.address(compressed)": (want["addr_c"], lambda: N.keys.bip32_deserialize(blob).address(is_compressed=True)),
+            "BIP49Node.address(compressed)": (want["bip49"], lambda: N.keys.bip49_deserialize(blob).address(is_compressed=True)),
+            "BIP84Node.address(compressed)": (want["bip84"], lambda: N.keys.bip84_deserialize(blob).address(is_compressed=True)),
+        }
+        for nm, (w, f) in obs_u.items():
+            tag, v = nets.call(f)
+            nev += 1
+            if tag == "ok" and v != w:
+                fails.append({"key": "C08|key-address|%s|differs" % nm,
+                              "what": "%s on %s for the point %x: expected %r (or a refusal), got %r" % (nm, r["n"], pt[0], w, v), "n": r["n"], "pt": [hex(pt[0]), hex(pt[1])]})
         for nm, (w, f) in obs.items():
             tag, v = nets.call(f)
             nev += 1
